@@ -414,5 +414,5 @@ def run(ctx):
     for kind, items in sorted(by.items()):
         what, site, cfg = items[0]
         ctx.add(Finding("C03", "C03.AXI." + kind, "get_unique_invariant_filters", "%s (%d of the swept configurations fail)" % (what, len(items)), path, fn.lineno, cfg, kind))
-    ev.instances("C03.AXI.obligations", ev.obligations, floor=70 if ctx.tier == "quick" else 300)
+    ev.instances("C03.AXI.obligations", ev.obligations, floor=70 if ctx.tier == "quick" else 250)
     ev.exhaustive = th
